@@ -85,7 +85,8 @@ def tableK (t : Nat) : Nat := 30000 + t                     -- "table:{table}"
 def rowK (t r : Nat) : Nat := 40000 + 100 * t + r           -- "table:{table}:row:{row_id}"
 def edgeK (f t ty : Nat) : Nat := 50000 + 100 * f + 10 * t + ty  -- "edge:{from}:{to}:{edge_type}"
 
-/-- `Transaction::affected_key` — the LOGICAL key; `TxParticipant::prepare` locks these. -/
+/-- `Transaction::affected_key` — the LOGICAL key: what the YES vote's delta reports to the coordinator
+    (and, before 3e4ef1c8, the only key `TxParticipant::prepare` locked). -/
 def Op.key : Op → Nat
   | .put k _ | .del k | .embed k _ | .nodeCreate k _ | .nodeDelete k | .cas k _ _ => k
   | .edgeCreate f _ _ => f
@@ -99,10 +100,25 @@ def Op.undoKey : Op → Nat
   | .edgeCreate f t ty => edgeK f t ty
   | .tableInsert t _ | .tableUpdate t _ _ | .tableDelete t _ => tableK t
 
-/-- the key `apply_operations` writes or deletes (differs from `storage_key` for the two row kinds). -/
+/-- `Transaction::write_key` — the key `apply_operations` writes or deletes (differs from `storage_key`
+    for the two row kinds). -/
 def Op.writeKey : Op → Nat
   | .tableUpdate t r _ | .tableDelete t r => rowK t r
   | op => op.undoKey
+
+/-- `if !lock_keys.contains(&key) { lock_keys.push(key) }` over a list of candidate keys -/
+def pushNew : List Nat → List Nat → List Nat
+  | acc, [] => acc
+  | acc, k :: ks => pushNew (if acc.contains k then acc else acc ++ [k]) ks
+
+/-- the LOCK SET of `TxParticipant::prepare` (since 3e4ef1c8): the logical keys in request order
+    (duplicates kept, as in the code), then per operation its `storage_key()` and its `write_key()`,
+    each pushed unless already in the list. -/
+def lockKeys (ops : List Op) : List Nat :=
+  pushNew (ops.map Op.key) (ops.flatMap (fun op => [op.undoKey, op.writeKey]))
+
+/-- the lock set BEFORE 3e4ef1c8: the logical keys only -/
+def lockKeysOld (ops : List Op) : List Nat := ops.map Op.key
 
 /-! ## shard store -/
 
@@ -267,17 +283,28 @@ def findPrepared : List PreparedTx → Nat → Option PreparedTx
 def removePrepared (ps : List PreparedTx) (tx : Nat) : List PreparedTx :=
   ps.filter (fun p => p.tx != tx)
 
-/-- `TxParticipant::prepare`: lock all LOGICAL keys (`affected_key`) or answer `Conflict`; on success
-    capture the undo image of every op's `storage_key` and (re)insert the prepared entry. -/
-def Participant.prepare (p : Participant) (now handle tx : Nat) (ops : List Op) : Participant × Vote :=
-  let keys := ops.map Op.key
-  match p.locks.tryLock now handle tx keys with
+/-- `TxParticipant::prepare` over a given lock set: lock all of `lks` or answer `Conflict`; on success
+    capture the undo image of every op's `storage_key` and (re)insert the prepared entry.  The YES
+    vote's delta carries the LOGICAL keys. -/
+def Participant.prepareWith (lks : List Nat) (p : Participant) (now handle tx : Nat) (ops : List Op) :
+    Participant × Vote :=
+  match p.locks.tryLock now handle tx lks with
   | .error c => (p, .conflict c)
   | .ok lt =>
     let undo := ops.map (fun op => capture p.store op.undoKey)
     ({ p with locks := lt,
               prepared := ⟨tx, handle, ops, now, undo⟩ :: removePrepared p.prepared tx },
-     .yes handle keys)
+     .yes handle (ops.map Op.key))
+
+/-- `TxParticipant::prepare` (the code as it is, 3e4ef1c8): the lock set is `lockKeys ops` — logical
+    keys, storage keys (undo images) and write keys. -/
+def Participant.prepare (p : Participant) (now handle tx : Nat) (ops : List Op) : Participant × Vote :=
+  p.prepareWith (lockKeys ops) now handle tx ops
+
+/-- `TxParticipant::prepare` BEFORE 3e4ef1c8: only the logical keys (`affected_key`) are locked, while
+    the undo images are those of the storage keys. -/
+def Participant.prepareOld (p : Participant) (now handle tx : Nat) (ops : List Op) : Participant × Vote :=
+  p.prepareWith (lockKeysOld ops) now handle tx ops
 
 /-- `TxParticipant::commit`: apply the operations, then release by handle.  `false` = "transaction
     not found" (nothing applied). -/
@@ -602,12 +629,13 @@ def Sys.run (s : Sys) (es : List Ev) : Sys := es.foldl Sys.step s
 /-- every operation a client ever asked for (all transactions, all shards) -/
 def allOps (specs : List TxSpec) : List Op := specs.flatMap (fun sp => sp.ops.flatMap (·.2))
 
-/-- The LOCK DISCIPLINE of a workload: whenever one operation writes the storage key whose undo image
-    another operation captures, the two are serialised by the same logical (lock) key.  It holds by
-    construction for Put / Delete / CompareAndSwap workloads (`key = undoKey = writeKey`) and for the
-    prefixed kinds as long as no client addresses a prefixed storage key (`"emb:x"`, `"table:t"`,
-    `"table:t:row:r"`, …) directly while another transaction reaches it through `Embed`, `Table*`, ….
-    The code locks `affected_key()` but captures / restores `storage_key()`: it does NOT enforce this. -/
+/-- The LOCK DISCIPLINE the code relied on BEFORE 3e4ef1c8: whenever one operation writes the storage
+    key whose undo image another operation captures, the two are serialised by the same logical (lock)
+    key.  It holds by construction for Put / Delete / CompareAndSwap workloads (`key = undoKey =
+    writeKey`) and for the prefixed kinds as long as no client addresses a prefixed storage key
+    (`"emb:x"`, `"table:t"`, `"table:t:row:r"`, …) directly while another transaction reaches it through
+    `Embed`, `Table*`, ….  The old `prepare` locked `affected_key()` only and did NOT enforce it; since
+    3e4ef1c8 the lock set contains the storage and write keys and no assumption on the workload is left. -/
 def lockDiscipline (ops : List Op) : Bool :=
   ops.all (fun a => ops.all (fun b => a.writeKey != b.undoKey || a.key == b.key))
 
@@ -625,14 +653,15 @@ def isParticipant (specs : List TxSpec) (tx sh : Nat) : Bool :=
 def knownTx (specs : List TxSpec) (tx : Nat) : Bool := (findSpec specs tx).isSome
 
 /-- C03's event alphabet: message delivery in any order / multiplicity (loss = never delivered),
-    coordinator timeout sweeps, coordinator commit / abort calls, new transactions whose operations
-    keep the workload's lock discipline, the passage of time as long as it does not EXPIRE a
-    participant lock, and forged / mis-tagged votes of every kind EXCEPT a YES in the name of a real
-    participant (NO and CONFLICT votes for any transaction and shard — also transactions not begun yet —,
-    YES votes tagged with a shard that is not a participant of an existing transaction).
-    Participant-side unilateral `cleanup_stale` / `recover` and participant lock expiry are outside it. -/
+    coordinator timeout sweeps, coordinator commit / abort calls, new transactions over ANY operations
+    of all ten kinds (no restriction on the workload: transactions that reach one storage key under
+    different logical keys are kept apart by the participant's lock table), the passage of time as long
+    as it does not EXPIRE a participant lock, and forged / mis-tagged votes of every kind EXCEPT a YES
+    in the name of a real participant (NO and CONFLICT votes for any transaction and shard — also
+    transactions not begun yet —, YES votes tagged with a shard that is not a participant of an existing
+    transaction).  Participant-side unilateral `cleanup_stale` / `recover` and participant lock expiry
+    are outside it. -/
 def Sys.inAlphabet (s : Sys) : Ev → Bool
-  | .begin _ ops _ => lockDiscipline (allOps s.specs ++ ops.flatMap (·.2))
   | .forge tx sh v => !v.isYes || (knownTx s.specs tx && !isParticipant s.specs tx sh)
   | .tick d => s.parts.all (fun p => p.locks.locks.all (fun l => !l.expired (s.now + d)))
   | .cleanupStale _ _ => false
@@ -707,14 +736,13 @@ def LockTable.tryLockNoConflictCheckForKnownTx (t : LockTable) (now handle tx : 
 /-- `TxParticipant::prepare` over the variant lock table. -/
 def Participant.prepareNoConflictCheckForKnownTx (p : Participant) (now handle tx : Nat) (ops : List Op) :
     Participant × Vote :=
-  let keys := ops.map Op.key
-  match p.locks.tryLockNoConflictCheckForKnownTx now handle tx keys with
+  match p.locks.tryLockNoConflictCheckForKnownTx now handle tx (lockKeys ops) with
   | .error c => (p, .conflict c)
   | .ok lt =>
     let undo := ops.map (fun op => capture p.store op.undoKey)
     ({ p with locks := lt,
               prepared := ⟨tx, handle, ops, now, undo⟩ :: removePrepared p.prepared tx },
-     .yes handle keys)
+     .yes handle (ops.map Op.key))
 
 /-- one event of the system whose participants prepare through the variant; every other event is
     the unchanged `Sys.step`. -/
@@ -734,6 +762,27 @@ def Sys.stepNoConflictCheckForKnownTx (s : Sys) (e : Ev) : Sys :=
 
 def Sys.runNoConflictCheckForKnownTx (s : Sys) (es : List Ev) : Sys :=
   es.foldl Sys.stepNoConflictCheckForKnownTx s
+
+/-! ## the participant before 3e4ef1c8 (for the witness of what was wrong) -/
+
+/-- one event of the system whose participants prepare through `prepareOld` (logical keys only); every
+    other event is the unchanged `Sys.step`. -/
+def Sys.stepOld (s : Sys) (e : Ev) : Sys :=
+  match e with
+  | .deliver i =>
+    match s.msgs[i]? with
+    | some (.prepare tx sh ops) =>
+      match s.parts[sh]? with
+      | none => s
+      | some p =>
+        let r := p.prepareOld s.now s.nextHandle tx ops
+        { s with parts := s.parts.set sh r.1, msgs := s.msgs ++ [Msg.vote tx sh r.2],
+                 nextHandle := if r.2.isYes then s.nextHandle + 1 else s.nextHandle,
+                 cast := s.cast ++ [(tx, sh, r.2.isYes)] }
+    | _ => s.step e
+  | _ => s.step e
+
+def Sys.runOld (s : Sys) (es : List Ev) : Sys := es.foldl Sys.stepOld s
 
 /-- the lock holder of a key (`LockManager::lock_holder` on a table without expired entries) -/
 def Participant.holder (p : Participant) (k : Nat) : Option Nat := (findLock p.locks.locks k).map (·.tx)
